@@ -102,6 +102,29 @@ theorem C10_mutex (host : Host) (spec : List (List JobId × Bool)) (brk : Bool) 
   obtain ⟨x, b1, b2, b3, _⟩ := hI.hold h hh
   exact ⟨x, b1, by rw [← hI.cur h x b1 b2]; exact b3⟩
 
+/-- What the code's own guard (`assert self.am_i_submitter()`, a HOST NAME comparison) does guarantee, after ANY
+    tamper-free history and without the protocol: a demotion succeeds only for a handle on the very host the config names
+    as submitter — a handle on another host can never take the role away. -/
+theorem C10_demote_only_from_submitter_host (host : Host) (spec : List (List JobId × Bool)) (brk : Bool) (ops : List Op)
+    (hnt : ∀ op ∈ ops, op.isTamper = false) (h : Hid)
+    (hok : (step (exec (create host spec brk) ops) (.demote h)).2 = .ok) :
+    ∃ x : Handle, (exec (create host spec brk) ops).handles h = some x ∧
+      (exec (create host spec brk) ops).disk.cfg.submitter = some x.host := by
+  have hC := Coherent.exec ops _ (Coherent.create host spec brk) hnt
+  generalize exec (create host spec brk) ops = s at hC hok ⊢
+  simp only [step] at hok
+  rcases locked_cases s h doDemote with ⟨_, h2⟩ | ⟨_, _, _, h2⟩ | ⟨x, hx, _, h2⟩
+  · rw [h2] at hok; cases hok
+  · rw [h2] at hok; cases hok
+  · rw [h2] at hok
+    simp only at hok
+    refine ⟨x, hx, ?_⟩
+    rcases doDemote_cases s.disk x with ⟨_, c2⟩ | ⟨_, _, c3⟩ | ⟨c1, c2, _, _⟩ | ⟨c1, c2, _, _⟩
+    · rw [c2] at hok; cases hok
+    · rw [c3] at hok; cases hok
+    · rw [← hC.cur h x hx c2]; exact c1
+    · rw [← hC.cur h x hx c2]; exact c1
+
 /-- the ghost state follows the model: `exec` of the tracked system is `exec` of the system -/
 theorem tracked_exec_s (t : Tracked) (ops : List Op) : (t.exec ops).s = exec t.s ops := by
   induction ops generalizing t with
